@@ -172,6 +172,8 @@ type GenOpts struct {
 	ShuffleCols bool `json:"shuffle_cols"`
 	// MultiUpsert: multi-row INSERT ... ON DUPLICATE KEY UPDATE
 	MultiUpsert bool `json:"multi_upsert"`
+	// DedicatedConn: the business of an episode runs on one *sql.Conn
+	DedicatedConn bool `json:"dedicated_conn,omitempty"`
 	// BigBlob: most blob values are 40-60 KB of random bytes
 	BigBlob bool `json:"big_blob,omitempty"`
 }
